@@ -678,8 +678,8 @@ func runKillCreate(rep *Report, r *Rng) {
 
 type ClobberCase struct {
 	Big    bool   `json:"big,omitempty"` // the in-process writer holds >= 65536 distinct values
-	Pre    string `json:"pre"`    // empty | index | garbage | readonly | foreignbolt
-	Writer string `json:"writer"` // mem | create | create-big
+	Pre    string `json:"pre"`           // empty | index | garbage | readonly | foreignbolt
+	Writer string `json:"writer"`        // mem | create | create-big
 }
 
 func runClobberCase(valid, csvPath string, c *ClobberCase, rep *Report) {
